@@ -37,6 +37,8 @@ type relayCase struct {
 	learnedBefore map[string]bool // transports ("UDP:5060") it was learned through by earlier messages
 	learnedBySelf bool            // this very message teaches it
 	learnedAlias  bool            // the same peer was learned under its other spelling only
+	// respond (twin scenario): lets the backend that received the request answer
+	respond func(w *wire.World, obs []*wire.Obs, svc int)
 }
 
 // learnModel mirrors what a service can have learned: host string -> listener transports.
